@@ -4,7 +4,50 @@
 //! rayon parallel map whose items run on loom threads.
 
 pub use loom::sync::atomic::{AtomicBool, Ordering};
-pub use loom::sync::{Arc, RwLock};
+pub use loom::sync::Arc;
+
+/// loom's RwLock with one extra scheduling point *inside* every critical section (loom
+/// branches before an acquisition only, so without it no thread is ever observed holding a
+/// lock, and a `try_read` / `try_write` could never fail). The point is a load of a dummy
+/// atomic; the `try_*` calls write to that atomic before the attempt, which is what makes
+/// the partial-order reduction consider "attempt while another thread holds the lock".
+/// Loads commute, so harnesses of code without `try_*` calls explore the same schedules.
+pub struct RwLock<T> {
+    inner: loom::sync::RwLock<T>,
+    held: loom::sync::atomic::AtomicUsize,
+}
+
+impl<T> RwLock<T> {
+    pub fn new(t: T) -> Self {
+        Self { inner: loom::sync::RwLock::new(t), held: loom::sync::atomic::AtomicUsize::new(0) }
+    }
+    pub fn read(&self) -> std::sync::LockResult<loom::sync::RwLockReadGuard<'_, T>> {
+        let g = self.inner.read();
+        self.held.load(Ordering::SeqCst);
+        g
+    }
+    pub fn write(&self) -> std::sync::LockResult<loom::sync::RwLockWriteGuard<'_, T>> {
+        let g = self.inner.write();
+        self.held.load(Ordering::SeqCst);
+        g
+    }
+    pub fn try_read(&self) -> std::sync::TryLockResult<loom::sync::RwLockReadGuard<'_, T>> {
+        self.held.fetch_add(1, Ordering::SeqCst);
+        let g = self.inner.try_read();
+        if g.is_ok() {
+            self.held.load(Ordering::SeqCst);
+        }
+        g
+    }
+    pub fn try_write(&self) -> std::sync::TryLockResult<loom::sync::RwLockWriteGuard<'_, T>> {
+        self.held.fetch_add(1, Ordering::SeqCst);
+        let g = self.inner.try_write();
+        if g.is_ok() {
+            self.held.load(Ordering::SeqCst);
+        }
+        g
+    }
+}
 pub use std::collections::HashMap;
 
 pub const STACK: usize = 1 << 22;
